@@ -9,6 +9,14 @@ ASSUME BToCp(B2p64) = Cp("18446744073709551616")
 ASSUME BMul(BFromCp(Cp("18014398509481984")), BFromInt(1024)) = B2p64
 ASSUME BDivMod(BFromInt(1000), BFromInt(7)) = <<BFromInt(142), BFromInt(6)>>
 ASSUME BAnd(BFromInt(33261), BFromInt(4095)) = BFromInt(493)
+FastVals == {0, 1, 9, 10, 99, 512, 1024, 86400, 999999, 99999999, 999999999, 1000000000, 1790000000, 1999999999}
+ASSUME \A x \in FastVals : \A y \in FastVals :
+         /\ BAdd(BFromInt(x), BFromInt(y)) = BAddBig(BFromInt(x), BFromInt(y))
+         /\ (x >= y => BSub(BFromInt(x), BFromInt(y)) = BSubBig(BFromInt(x), BFromInt(y)))
+         /\ BMul(BFromInt(x), BFromInt(y)) = BMulBig(BFromInt(x), BFromInt(y))
+         /\ (y # 0 => BDivMod(BFromInt(x), BFromInt(y)) = BDivModBig(BFromInt(x), BFromInt(y)))
+ASSUME \A x \in {0, 1, 7, 420, 493, 2541, 4095, 33261, 65535, 999999999} : \A y \in {0, 1, 256, 384, 511, 3072, 4095, 61440, 123456789} :
+         BAnd(BFromInt(x), BFromInt(y)) = BAndBig(BFromInt(x), BFromInt(y))
 ASSUME ZQuot(ZInt(-7), ZInt(2)) = ZInt(-3)
 \* front end
 ASSUME P("").t = T /\ P("  \t ").t = T
